@@ -2335,6 +2335,18 @@ class PEval:
                 return PySet(sorted_="btree" in (ret_t + path))
             if ret_t == "alloc::string::String" or "string::String" in path:
                 return ""
+        if fname == "from" and len(args) == 1 and isinstance(a0, list) and "convert::From" in path:
+            # `HashSet::from([a, b])`, `HashMap::from([(k, v)])`, `Vec::from([..])`: built from the array's elements
+            head_ = ret_t.split("<")[0]
+            if any(t in head_ for t in SET_TYPES):
+                return PySet(list(a0), sorted_="btree" in ret_t)
+            if any(t in head_ for t in MAP_TYPES) and all(isinstance(x, tuple) and len(x) == 2 for x in a0):
+                m_ = PyMap(sorted_="btree" in ret_t)
+                for k_, v_ in a0:
+                    m_.d[k_] = v_
+                return m_
+            if head_ in ("alloc::vec::Vec", "alloc::collections::vec_deque::VecDeque"):
+                return list(a0)
         if fname == "new" and "range::RangeInclusive" in path and len(args) == 2:
             return Struct(RANGE, {"start": args[0], "end": args[1] + 1 if isinstance(args[1], int) else UNKNOWN})
         # ---- char (code point) ------------------------------------------------------------------------
